@@ -368,6 +368,22 @@ def execOp (name : String) (recv : Tok) (args : List Tok) (obsS : String) : M Un
     let gs ← goVals args
     doRef name true (O.new h (mkPairs gs) (gs.length % 2 == 1)) obs
   | "newobjectfrom" => doRef name true (O.newFrom h (← goVal1 args)) obs
+  | "parselist" | "parseobject" =>
+    match args with
+    | [d] =>
+      let doc ← strArg d
+      let isObj := name == "parseobject"
+      let r := if isObj then parseObjectBytes (encode doc) else parseListBytes (encode doc)
+      match r, obs with
+      | .error _, .ok ["err"] => pure ()
+      | .error _, _ => fail s!"{name}: model rejects the document, observed {obsS}"
+      | .ok _, .ok ["err"] => fail s!"{name}: model accepts the document, the implementation rejects it"
+      | .ok t, _ =>
+        -- the parse result is a fresh tree on the heap
+        let (h1, v) := build h t
+        setHeap h1
+        cmpOut name (.ok [valTok v]) obs
+    | _ => fail "protocol"
   | _ =>
   let a ← addrOf recv
   match name with
